@@ -14,6 +14,17 @@ CHECKS = {
         "in the same replays, not decided by TLC; capacity policy is deliberately nondeterministic in the specification (MaybeCompact).",
    technique="TLA+ spec QHash/QHashImpl checked by TLC; state-graph replay into the C++ tables; TLC trace validation of recorded histories",
    design="6 (C13), appendix E.1/F"),
+ "C15": dict(
+   text="TLC checks the order axioms (trichotomy, irreflexivity, transitivity, prefix-first, union laws) of the lexicographic-order "
+        "specification over all triples of strings <= length 4 over 3 symbols, and that the transcription of Memory::Sort returns an "
+        "ordered permutation for every array <= 6 over 4 values. Every comparison operator result of the real String / StringView / "
+        "String-vs-literal (3 widths, all ordered pairs), of all ordered pairs of a value universe covering every kind (incl. pointer "
+        "values) and every Sort result (all arrays <= 5 over {'',a,ab,b} + random; Array, Value arrays, numbers, object keys with a "
+        "removed member) is recorded and evaluated by TLC against the specification (batch oracle).",
+   note="exhaustive only within the stated universes; plain char restricted to 0x01..0x7F; cross-kind / container comparisons are "
+        "held to the order axioms only, as the property fixes no direction for them; <loop sort=> is exercised by the template checks.",
+   technique="TLA+ order specification + Memory::Sort transcription checked by TLC; TLC batch oracle over recorded comparison and sort events",
+   design="6 (C15)"),
 }
 PENDING = "not yet claimed in this revision: its specification and conformance harness are still being built (DESIGN.md section 6 describes the plan)"
 m = {
